@@ -40,24 +40,39 @@ fn corpus() -> Vec<(Vec<&'static str>, Vec<&'static str>, Vec<&'static str>, Vec
 }
 
 /// everything one process observes, as lines `key\tvalue`
-fn observe(k: usize) -> Vec<String> {
+/// `reverse`: the same observations made in the opposite order (universe backwards, the `+` rendering of a
+/// bundle before its normal rendering, corpus calls last to first); lines are keyed, so the two processes
+/// must still agree line by line — any state carried from one rendering or call to the next shows up here
+fn observe(k: usize, reverse: bool) -> Vec<String> {
     let mut out = vec![];
     out.push(format!("witness\t{:x}", av::order_witness()));
     let plus = av::compile_aliases(&[], &["[] => +ˣ".to_string()]).expect("plus alias compiles");
-    for b in universe(k) {
+    let mut uni = universe(k);
+    if reverse { uni.reverse(); }
+    let mut corpus_lines = vec![];
+    let cs = corpus();
+    let order: Vec<usize> = if reverse { (0..cs.len()).rev().collect() } else { (0..cs.len()).collect() };
+    if reverse {
+        for ci in &order { corpus_lines.push(corpus_line(*ci, &cs[*ci])); }
+    }
+    for b in uni {
         let w = word_of(&vec![CSyl { segs: vec![b], stress: 0, tone: 0 }]);
-        let a = guarded(500_000, || av::render_word(&w, None));
-        let n = guarded(500_000, || av::render_word(&w, Some(&plus)));
+        let (a, n) = if reverse { let n = guarded(500_000, || av::render_word(&w, Some(&plus))); let a = guarded(500_000, || av::render_word(&w, None)); (a, n) }
+                     else { let a = guarded(500_000, || av::render_word(&w, None)); let n = guarded(500_000, || av::render_word(&w, Some(&plus))); (a, n) };
         out.push(format!("seg|{},{},{},{}\t{}\t{}", b.0, b.1, b.2, b.3.map(|x| x.to_string()).unwrap_or("-".into()), match a { Out::Ok(s) => s, o => o.crash_sig().unwrap() }, match n { Out::Ok(s) => s, o => o.crash_sig().unwrap() }));
     }
-    for (ci, (rules, words, into, from)) in corpus().iter().enumerate() {
-        let g: Vec<asca::RuleGroup> = rules.iter().map(|r| group(&[r])).collect();
-        let ws: Vec<String> = words.iter().map(|s| s.to_string()).collect();
-        let i: Vec<String> = into.iter().map(|s| s.to_string()).collect(); let f: Vec<String> = from.iter().map(|s| s.to_string()).collect();
-        let r = guarded(5_000_000, || asca::run(&g, &ws, &i, &f));
-        out.push(format!("corpus|{}\t{}", ci, match r { Out::Ok(x) => format!("{:?}", x), o => o.crash_sig().unwrap() }));
-    }
+    if !reverse { for ci in &order { corpus_lines.push(corpus_line(*ci, &cs[*ci])); } }
+    out.extend(corpus_lines);
     out
+}
+
+fn corpus_line(ci: usize, c: &(Vec<&'static str>, Vec<&'static str>, Vec<&'static str>, Vec<&'static str>)) -> String {
+    let (rules, words, into, from) = c;
+    let g: Vec<asca::RuleGroup> = rules.iter().map(|r| group(&[r])).collect();
+    let ws: Vec<String> = words.iter().map(|s| s.to_string()).collect();
+    let i: Vec<String> = into.iter().map(|s| s.to_string()).collect(); let f: Vec<String> = from.iter().map(|s| s.to_string()).collect();
+    let r = guarded(5_000_000, || asca::run(&g, &ws, &i, &f));
+    format!("corpus|{}\t{}", ci, match r { Out::Ok(x) => format!("{:?}", x), o => o.crash_sig().unwrap() })
 }
 
 pub fn worker(args: &[String]) -> i32 {
@@ -65,7 +80,8 @@ pub fn worker(args: &[String]) -> i32 {
     let path = args.get(1).cloned().unwrap_or_default();
     // force the lazy table first, on this thread, so that the witness is recorded here
     let _ = av::cardinals_vec();
-    let lines = observe(k);
+    let reverse = args.get(2).map(|s| s == "rev").unwrap_or(false);
+    let lines = observe(k, reverse);
     let mut f = std::fs::File::create(&path).expect("worker output file");
     for l in &lines { writeln!(f, "{}", l).unwrap(); }
     0
@@ -83,7 +99,11 @@ fn in_process(r: &mut Report) {
     };
     for ci in 0..cs.len() {
         let ws: Vec<String> = cs[ci].1.iter().map(|s| s.to_string()).collect();
-        let first = call(ci, &ws);
+        // the reference answer comes from a thread that has never rendered anything (thread-local state is fresh there)
+        let first = std::thread::scope(|sc| sc.spawn(|| call(ci, &ws)).join().unwrap());
+        evals += 1;
+        let here = call(ci, &ws);
+        if here != first { r.viol(Viol { key: format!("history|fresh-thread-vs-used-thread|call{}", ci), desc: format!("call {} in a fresh thread gave {}, in a thread with a history {}", ci, first, here), case: json!({"kind": "history"}) }); }
         // histories: A A, A B A, B A A, A B B A for every other call B
         for cj in 0..cs.len() {
             let wj: Vec<String> = cs[cj].1.iter().map(|s| s.to_string()).collect();
@@ -126,12 +146,15 @@ pub fn run() -> i32 {
     let mut orders: Vec<(String, Option<String>)> = vec![("sorted".into(), Some("sorted".into())), ("rev".into(), Some("rev".into()))];
     for (g, _) in av::cardinals() { orders.push((format!("front:{}", g), Some(format!("front:{}", g)))); }
     for i in 0..16 { orders.push((format!("unset#{}", i), None)); }
+    // two processes that make the same observations in the opposite order (history independence across a whole process)
+    orders.push(("sorted/observations-reversed".into(), Some("sorted".into())));
+    orders.push(("rev/observations-reversed".into(), Some("rev".into())));
     // run workers, n_threads at a time
     let results: std::sync::Mutex<Vec<(usize, bool)>> = std::sync::Mutex::new(vec![]);
     par_fold(orders.len(), 1, || (), |i, _| {
         let out = format!("{}/{}.txt", dir, i);
         let mut cmd = std::process::Command::new(&exe);
-        cmd.arg("c01-worker").arg(k.to_string()).arg(&out).env_remove("ASCA_VERIF_ORDER");
+        cmd.arg("c01-worker").arg(k.to_string()).arg(&out).arg(if orders[i].0.ends_with("observations-reversed") { "rev" } else { "fwd" }).env_remove("ASCA_VERIF_ORDER");
         if let Some(o) = &orders[i].1 { cmd.env("ASCA_VERIF_ORDER", o); }
         let ok = cmd.status().map(|s| s.success()).unwrap_or(false);
         results.lock().unwrap().push((i, ok));
@@ -149,8 +172,10 @@ pub fn run() -> i32 {
     for i in 0..orders.len() {
         let cur = if i == 0 { base.clone() } else { read(i) };
         if cur.len() != base.len() { r.machinery_errors.push(format!("order {} produced {} lines, expected {}", orders[i].0, cur.len(), base.len())); continue; }
-        for (a, b) in base.iter().zip(cur.iter()) {
-            if a.starts_with("witness") { witnesses.insert(b.clone()); continue; }
+        let mut cur = cur; if let Some(w) = cur.iter().find(|l| l.starts_with("witness")) { witnesses.insert(w.clone()); }
+        cur.sort(); let mut bs = base.clone(); bs.sort();
+        for (a, b) in bs.iter().zip(cur.iter()) {
+            if a.starts_with("witness") { continue; }
             compared += 1;
             if a != b {
                 let key = a.split('\t').next().unwrap_or("").to_string();
